@@ -22,10 +22,16 @@ class RequestStreamRequester(StreamHandler, DefaultPublisherSubscription, Reques
         super().subscribe(subscriber)
 
     def cancel(self):
+        if self._finished:
+            return  # the stream already ended: cancel() on its subscription is a no-op
+
         self.send_cancel()
         self._finish_stream()
 
     def request(self, n: int):
+        if self._finished:
+            return  # the stream already ended: request(n) on its subscription is a no-op
+
         self.send_request_n(n)
 
     def frame_received(self, frame: Frame):
